@@ -72,7 +72,11 @@ _POOLS = {}
 def pool(seed, kind):
     key = (seed, kind)
     if key not in _POOLS:
-        if kind == "real":
+        if kind == "int-first":
+            # integer-valued real shapes (counts): the first setup's matrix is handed over as an int64 array
+            g = np.round(9.0 * payload.entries(seed, "c02/G/int", (POOL_ROWS, POOL_MODES), 0.2, 1.0))
+            g[g == 0] = 1.0
+        elif kind == "real":
             g = payload.entries(seed, "c02/G/real", (POOL_ROWS, POOL_MODES), 0.2, 1.0)
         elif kind == "complex-mild":
             g = payload.cplx(seed, "c02/G/mild", (POOL_ROWS, POOL_MODES), 0.2, 1.0, phase_spread=0.6)
@@ -238,6 +242,8 @@ def judge_merge(t, seed, nref, nrov, places, nmodes, kind, rot, shift, nt_id=Non
     rows, ntot = layout_rows(nref, nrov, places)
     G = global_matrix(seed, kind, ntot, nmodes, shift)
     c = factors(nset, nmodes, rot)
+    if kind == "int-first":
+        c[0, :] = 1.0                      # the first setup is the integer-valued restriction of G itself
     ok_modes = guard_modes(G, nref, kind)
     case = {"route": "merge", "seed": seed, "nref": nref, "nrov": list(nrov), "places": [list(p) for p in places],
             "nmodes": nmodes, "kind": kind, "rot": rot, "shift": shift}
@@ -246,6 +252,8 @@ def judge_merge(t, seed, nref, nrov, places, nmodes, kind, rot, shift, nt_id=Non
         t.skipped_by_guard += 1
         return
     MS = setup_arrays(G, rows, c)
+    if kind == "int-first":
+        MS[0] = np.round(MS[0]).astype(np.int64)
     t.evaluations += 1
     t.transitions += 1
     try:
@@ -519,6 +527,8 @@ def work_merge(item):
         vs = variants(nset, nlay, j, modes, thorough, sidx)
         for iv, (nm, kd, rot) in enumerate(vs):
             judge_merge(t, seed, nref, nrov, places, nm, kd, rot, shift, nt_id=(lid << 9) | iv)
+        if j % 3 == 0:
+            judge_merge(t, seed, nref, nrov, places, modes[j % len(modes)], "int-first", (j + sidx) % 10, shift, nt_id=(lid << 9) | 511)
         if do_class:
             nm = modes[j % len(modes)] if not thorough else [1, 2, 3][j % 3]
             kd = KINDS[(j // 2) % 3]
@@ -615,7 +625,7 @@ def explore(ctx):
     items.sort(key=lambda it: -len(it[3]) * 10 - it[2])
     ctx.pmap(work_merge, items, chunksize=1)
     ctx.pmap(work_e2e, e2e, chunksize=4)
-    ctx.require("merge:real:ok", "merge:complex-mild:ok", "merge:complex-wide:ok", "merge:nontrivial-factors",
+    ctx.require("merge:real:ok", "merge:int-first:ok", "merge:complex-mild:ok", "merge:complex-wide:ok", "merge:nontrivial-factors",
                 "merge:signs-only", "merge:some-setup-without-roving", "merge:references-not-leading",
                 "merge:references-out-of-order", "flatten:ok", "class:one-algorithm:ok", "class:two-algorithms:ok",
                 "e2e:ok", "e2e:measured-factor>1", "e2e:measured-factor<1", "e2e:measured-factor-negative",
